@@ -159,22 +159,30 @@ Qed.
 Section Restale.
 Variable f : N -> N.
 
+Lemma indexed_from_fst {A} k (l : list A) x xs : l = x :: xs -> In (k, x) (indexed_from k l).
+Proof. intros ->. left. reflexivity. Qed.
+
+(* one destination: every notification carries the new list; if all of them say
+   "best unchanged" the best path's content did not move, if all of them say
+   "nothing changed" the list did not move *)
 Lemma restale_dest_sound t llgr addr net d :
   inv1 f t -> In (net, d) (t_dests t) -> NoDup (map e_lpid (d_entries d)) ->
   let fl' := restale_flags llgr addr (t_dests t) (t_flags t) in
-  (forall c, snd (restale_dest fl' addr net d) = Some c ->
-             chg_ok net (Some d) (Some (fst (restale_dest fl' addr net d))) c)
-  /\ (snd (restale_dest fl' addr net d) = None -> elig_list d = elig_list (fst (restale_dest fl' addr net d))).
+  let d' := fst (restale_dest fl' llgr addr net d) in
+  let cs := snd (restale_dest fl' llgr addr net d) in
+  (forall c, In c cs -> c_net c = net /\ c_paths c = elig_list d' /\ c_dest_id c = d_id d')
+  /\ ((forall c, In c cs -> c_best_changed c = false) -> head_content (elig_list d) = head_content (elig_list d'))
+  /\ ((forall c, In c cs -> c_any_changed c = false) -> elig_list d = elig_list d').
 Proof.
   intros [Hk Hr Ht] Hin Hl fl'. unfold restale_dest.
-  destruct (existsb (from_addr addr) (d_entries d)) eqn:Ex; cbn [negb fst snd]; [|split; [discriminate|reflexivity]].
+  destruct (existsb (from_addr addr) (d_entries d)) eqn:Ex; cbn [negb fst snd];
+    [|split; [intros c []|split; intros _; reflexivity]].
   set (d' := with_entries d (isort (cmp_for fl' net) (d_entries d)) (d_next_pid d)).
   assert (Hel : elig_list d' = isort (cmp_for fl' net) (elig_list d)).
   { unfold elig_list, d'. cbn [d_entries with_entries]. apply filter_isort. }
-  (* when the peer has no unfiltered path here, the eligible list does not move *)
   assert (Hstay : existsb (fun e => from_addr addr e && negb (e_filtered e)) (d_entries d) = false ->
-                  elig_list d' = elig_list d).
-  { intro Hnu. rewrite Hel. apply isort_sorted_id.
+                  elig_list d = elig_list d').
+  { intro Hnu. rewrite Hel. symmetry. apply isort_sorted_id.
     apply (ranked_ext (t_flags t)); [|apply ranked_filter, (Hr _ _ Hin)].
     intros e He. apply filter_In in He as [He Hee]. apply key_for_flags. unfold fl'.
     apply flags_restale_other. intros n0 d0 e0 Hin0 He0 Hfrom Htok.
@@ -188,22 +196,42 @@ Proof.
     unfold wf_entry in *. rewrite Htok in W0.
     assert (Ha : s_addr (e_src e) = addr) by congruence.
     apply from_addr_eq in Ha. congruence. }
-  assert (Hhead : oNeqb (best_lpid d) (best_lpid d') = true -> head_content (elig_list d) = head_content (elig_list d')).
-  { intro Hb. apply oN_eqb_eq in Hb. rewrite !best_lpid_head in Hb.
+  assert (Hhead : negb (oNeqb (best_lpid d) (best_lpid d')) = false ->
+                  head_content (elig_list d) = head_content (elig_list d')).
+  { intro Hb. apply negb_false_iff, oN_eqb_eq in Hb. rewrite !best_lpid_head in Hb.
     apply (head_by_lpid (d_entries d)); try assumption; [apply incl_filter|].
     intros y Hy. apply filter_In in Hy as [Hy _]. unfold d' in Hy. cbn [d_entries with_entries] in Hy.
     apply (Permutation_in y (Permutation_sym (isort_perm (cmp_for fl' net) (d_entries d)))), Hy. }
   fold d'.
-  destruct (negb (oNeqb (best_lpid d) (best_lpid d'))) eqn:Hbc; cbn [orb].
-  - split; [|discriminate]. intros c Hc. injection Hc as <-. unfold chg_ok.
-    cbn [c_net c_paths c_dest_id c_best_changed c_any_changed oel oid]. repeat split; try reflexivity; [discriminate|].
-    intro Hnu. symmetry. apply Hstay, Hnu.
-  - apply negb_false_iff in Hbc.
-    destruct (existsb (fun e => from_addr addr e && negb (e_filtered e)) (d_entries d)) eqn:Hnu.
-    + split; [|discriminate]. intros c Hc. injection Hc as <-. unfold chg_ok.
-      cbn [c_net c_paths c_dest_id c_best_changed c_any_changed oel oid]. repeat split; try reflexivity; [|discriminate].
-      intros _. apply Hhead, Hbc.
-    + split; [discriminate|]. intros _. symmetry. apply Hstay. reflexivity.
+  set (moved := negb (oNeqb (best_lpid d) (best_lpid d'))) in *.
+  set (marked := if llgr then map e_lpid (filter (from_addr addr) (elig_list d')) else []).
+  set (bm := match best_lpid d', marked with Some b, m :: _ => m =? b | _, _ => false end).
+  set (any_unf := existsb (fun e => from_addr addr e && negb (e_filtered e)) (d_entries d)) in *.
+  destruct ((moved || bm) || any_unf) eqn:Hem.
+  - destruct marked as [|m ms] eqn:Em.
+    + split; [intros c [<-|[]]; repeat split; reflexivity|]. split.
+      * intro H. specialize (H _ (or_introl eq_refl)). cbn [c_best_changed] in H.
+        apply orb_false_iff in H as [H _]. apply Hhead. exact H.
+      * intro H. specialize (H _ (or_introl eq_refl)). cbn [c_any_changed] in H. apply Hstay, H.
+    + split; [|split].
+      * intros c Hc. apply in_map_iff in Hc as (kp & <- & _). repeat split; reflexivity.
+      * intro H. apply Hhead.
+        set (g := fun kp : nat * N => {| c_net := net; c_dest_id := d_id d;
+                                         c_best_changed := (moved || bm) && Nat.eqb (fst kp) 0;
+                                         c_any_changed := true; c_replaced := Some (snd kp);
+                                         c_paths := elig_list d' |}) in *.
+        assert (Hfirst : In (g (0%nat, m)) (map g (indexed_from 0 (m :: ms)))) by (apply in_map; left; reflexivity).
+        specialize (H _ Hfirst). unfold g in H. cbn [c_best_changed fst Nat.eqb] in H. rewrite andb_true_r in H.
+        apply orb_false_iff in H as [H _]. exact H.
+      * intro H. exfalso.
+        set (g := fun kp : nat * N => {| c_net := net; c_dest_id := d_id d;
+                                         c_best_changed := (moved || bm) && Nat.eqb (fst kp) 0;
+                                         c_any_changed := true; c_replaced := Some (snd kp);
+                                         c_paths := elig_list d' |}) in *.
+        assert (Hfirst : In (g (0%nat, m)) (map g (indexed_from 0 (m :: ms)))) by (apply in_map; left; reflexivity).
+        specialize (H _ Hfirst). discriminate H.
+  - apply orb_false_iff in Hem as [Hb Hu]. apply orb_false_iff in Hb as [Hm _].
+    split; [intros c []|]. split; intros _; [apply Hhead; exact Hm|apply Hstay; exact Hu].
 Qed.
 
 End Restale.
@@ -224,13 +252,13 @@ Qed.
 
 (* ------------------------------------------- lifting to the whole table *)
 
-Definition net_ok (t t' : table) (cs : list change) (net : N) : Prop :=
+Definition net_ok1 (t t' : table) (cs : list change) (net : N) : Prop :=
   (forall c, In c cs -> c_net c = net ->
              chg_ok net (alookup net (t_dests t)) (alookup net (t_dests t')) c)
   /\ ((forall c, In c cs -> c_net c <> net) ->
       t_deferring t = true \/ elig_of t net = elig_of t' net).
 
-Lemma net_ok_refl t net : net_ok t t [] net.
+Lemma net_ok1_refl t net : net_ok1 t t [] net.
 Proof. split; [intros c []|intros _; right; reflexivity]. Qed.
 
 Definition ochs (h : N -> dest -> option change) (ds : list (N * dest)) : list change :=
@@ -244,15 +272,15 @@ Proof.
   - intros (n & d & Hin & E). exists (n, d). split; [exact Hin|]. cbn [fst snd]. rewrite E. left. reflexivity.
 Qed.
 
-Lemma net_ok_fm t t' cs g h net :
+Lemma net_ok1_fm t t' cs g h net :
   NoDup (map fst (t_dests t)) ->
   t_dests t' = fm g (t_dests t) -> cs = ochs h (t_dests t) ->
   (forall n d, In (n, d) (t_dests t) ->
                (forall c, h n d = Some c -> chg_ok n (Some d) (g n d) c)
                /\ (h n d = None -> elig_list d = oel (g n d))) ->
-  net_ok t t' cs net.
+  net_ok1 t t' cs net.
 Proof.
-  intros Hk Ed -> Hs. unfold net_ok, elig_of. rewrite Ed, (alookup_fm g _ net Hk). split.
+  intros Hk Ed -> Hs. unfold net_ok1, elig_of. rewrite Ed, (alookup_fm g _ net Hk). split.
   - intros c Hc Hn. apply in_ochs in Hc as (n & d & Hin & E).
     destruct (Hs _ _ Hin) as [H1 _]. specialize (H1 _ E).
     assert (n = net) by (destruct H1 as [H1 _]; congruence). subst n.
@@ -274,38 +302,23 @@ Proof.
   destruct (fold_left _ _ _) as [[rcv' acc'] bad']. cbn [snd]. unfold ochs. rewrite flat_map_map. reflexivity.
 Qed.
 
-Lemma restale_op_changes t llgr addr :
-  snd (restale_op t llgr addr)
-  = ochs (fun n d => snd (restale_dest (restale_flags llgr addr (t_dests t) (t_flags t)) addr n d)) (t_dests t).
-Proof. unfold restale_op. cbv zeta. cbn [snd]. unfold ochs. rewrite flat_map_map. reflexivity. Qed.
-
 Lemma nhv_op_changes t nh r :
   snd (nhv_op t nh r) = ochs (fun n d => snd (nhv_dest nh r n d)) (t_dests t).
 Proof. unfold nhv_op. cbn [snd]. unfold ochs. rewrite flat_map_map. reflexivity. Qed.
 
-Lemma net_ok_drop t k addr ctr net :
-  invE t -> net_ok t (fst (drop_op t k addr ctr)) (snd (drop_op t k addr ctr)) net.
+Lemma net_ok1_drop t k addr ctr net :
+  invE t -> net_ok1 t (fst (drop_op t k addr ctr)) (snd (drop_op t k addr ctr)) net.
 Proof.
   intros [Hk Hok]. destruct (drop_op_dests t k addr ctr) as [Ed _].
-  apply (net_ok_fm t _ _ _ _ net Hk Ed (drop_op_changes t k addr ctr)).
+  apply (net_ok1_fm t _ _ _ _ net Hk Ed (drop_op_changes t k addr ctr)).
   intros n d Hin. apply drop_dest_sound, (Hok _ _ Hin).
 Qed.
 
-Lemma net_ok_restale f t llgr addr net :
-  inv1 f t -> invE t -> net_ok t (fst (restale_op t llgr addr)) (snd (restale_op t llgr addr)) net.
-Proof.
-  intros H1 [Hk Hok]. destruct (restale_op_dests t llgr addr) as [Ed _]. cbv zeta in Ed.
-  rewrite mp_as_fm in Ed.
-  apply (net_ok_fm t _ _ _ _ net Hk Ed (restale_op_changes t llgr addr)).
-  intros n d Hin. destruct (Hok _ _ Hin) as (_ & Hl & _).
-  apply (restale_dest_sound f t llgr addr n d H1 Hin Hl).
-Qed.
-
-Lemma net_ok_nhv t nh r net :
-  invE t -> net_ok t (fst (nhv_op t nh r)) (snd (nhv_op t nh r)) net.
+Lemma net_ok1_nhv t nh r net :
+  invE t -> net_ok1 t (fst (nhv_op t nh r)) (snd (nhv_op t nh r)) net.
 Proof.
   intros [Hk Hok]. destruct (nhv_op_dests t nh r) as [Ed _]. rewrite mp_as_fm in Ed.
-  apply (net_ok_fm t _ _ _ _ net Hk Ed (nhv_op_changes t nh r)).
+  apply (net_ok1_fm t _ _ _ _ net Hk Ed (nhv_op_changes t nh r)).
   intros n d Hin. apply nhv_dest_sound.
 Qed.
 
@@ -343,15 +356,15 @@ Lemma oid_ins_lookup t net d2 :
   Some (d_id d2) = match oid (Some d2) with Some i => Some i | None => oid (alookup net (t_dests t)) end.
 Proof. reflexivity. Qed.
 
-Lemma net_ok_insert t s n0 rpid nh a filt nhinv lim net :
+Lemma net_ok1_insert t s n0 rpid nh a filt nhinv lim net :
   invE t ->
-  net_ok t (fst (insert t s n0 rpid nh a filt nhinv lim))
+  net_ok1 t (fst (insert t s n0 rpid nh a filt nhinv lim))
          (match snd (insert t s n0 rpid nh a filt nhinv lim) with OChanged c => [c] | _ => [] end) net.
 Proof.
   intros Hinv. destruct (ins_lookup_entries t n0 Hinv) as [Hl Hkk]. destruct Hinv as [Hk Hok].
   unfold insert. cbv zeta.
-  destruct (ins_over t lim _); [apply net_ok_refl|].
-  destruct (ins_pid _ _ _) as [pn|] eqn:Hp; [|apply net_ok_refl].
+  destruct (ins_over t lim _); [apply net_ok1_refl|].
+  destruct (ins_pid _ _ _) as [pn|] eqn:Hp; [|apply net_ok1_refl].
   cbn [fst snd].
   set (d0 := fst (ins_lookup t n0)) in *.
   set (rest := filter (fun e => negb (same_key s rpid e)) (d_entries d0)) in *.
@@ -372,7 +385,7 @@ Proof.
       subst x. unfold eligible. rewrite Hr. reflexivity.
     - pose proof (find_none _ _ Ef x Hx) as Hn. congruence. }
   pose proof (ins_out_sound t d0 d2 n0 replaced filt Hsame) as Ho.
-  unfold net_ok, elig_of. cbn [t_dests t_deferring]. rewrite alookup_aset.
+  unfold net_ok1, elig_of. cbn [t_dests t_deferring]. rewrite alookup_aset.
   destruct (net =? n0) eqn:En.
   - apply N.eqb_eq in En. subst net. fold (elig_of t n0). rewrite (elig_of_ins_lookup t n0). fold d0.
     destruct (ins_out t d0 d2 n0 replaced filt) as [| |c].
@@ -392,21 +405,21 @@ Qed.
 
 (* ------------------------------------------------------------------ remove *)
 
-Lemma net_ok_remove t s n0 rpid ctr net :
+Lemma net_ok1_remove t s n0 rpid ctr net :
   invE t ->
-  net_ok t (fst (remove t s n0 rpid ctr))
+  net_ok1 t (fst (remove t s n0 rpid ctr))
          (match snd (remove t s n0 rpid ctr) with Some c => [c] | None => [] end) net.
 Proof.
   intros [Hk Hok]. unfold remove.
-  destruct (alookup n0 (t_dests t)) as [d|] eqn:Hd; [|apply net_ok_refl].
-  destruct (find (same_key s rpid) (d_entries d)) as [removed|] eqn:Ef; [|apply net_ok_refl]. cbv zeta.
+  destruct (alookup n0 (t_dests t)) as [d|] eqn:Hd; [|apply net_ok1_refl].
+  destruct (find (same_key s rpid) (d_entries d)) as [removed|] eqn:Ef; [|apply net_ok1_refl]. cbv zeta.
   assert (Hout : eligible removed = false ->
                  filter eligible (remove_first (same_key s rpid) (d_entries d)) = elig_list d).
   { intro He. apply (filter_remove_first_out eligible _ _ removed Ef He). }
   assert (Hfe : e_filtered removed = true -> eligible removed = false).
   { intro H. unfold eligible. rewrite H. reflexivity. }
   destruct (remove_first (same_key s rpid) (d_entries d)) as [|x xs] eqn:Hrest; cbn [fst snd];
-    unfold net_ok, elig_of; cbn [t_dests t_deferring].
+    unfold net_ok1, elig_of; cbn [t_dests t_deferring].
   - rewrite alookup_aremove. destruct (net =? n0) eqn:En.
     + apply N.eqb_eq in En. subst net. rewrite Hd.
       pose proof (remove_first_nil _ _ _ Ef Hrest) as El.
@@ -436,12 +449,89 @@ Proof.
       destruct (negb (negb (key_eqb _ _)) && _); [destruct Hc|]. destruct Hc as [<-|[]]. cbn in Hn. congruence.
 Qed.
 
+(* ----------------------------- the per-prefix contract of one operation *)
+
+(* several notifications may concern one prefix in one operation (restale_llgr
+   names every marked path); each carries the new list, and the flags are sound
+   for skipping when taken together *)
+Definition net_ok (t t' : table) (cs : list change) (net : N) : Prop :=
+  (forall c, In c cs -> c_net c = net ->
+             c_paths c = elig_of t' net
+             /\ Some (c_dest_id c) = match id_of t' net with Some i => Some i | None => id_of t net end)
+  /\ ((forall c, In c cs -> c_net c = net -> c_best_changed c = false) ->
+      t_deferring t = true \/ head_content (elig_of t net) = head_content (elig_of t' net))
+  /\ ((forall c, In c cs -> c_net c = net -> c_any_changed c = false) ->
+      t_deferring t = true \/ elig_of t net = elig_of t' net).
+
+Lemma net_ok1_ok t t' cs net : net_ok1 t t' cs net -> net_ok t t' cs net.
+Proof.
+  intros [H1 H2].
+  assert (Hcase : (exists c, In c cs /\ c_net c = net) \/ (forall c, In c cs -> c_net c <> net)).
+  { destruct (existsb (fun c => c_net c =? net) cs) eqn:Ex.
+    - left. apply existsb_exists in Ex as (c & Hin & En). exists c. split; [exact Hin|apply N.eqb_eq, En].
+    - right. intros c Hin En.
+      assert (existsb (fun c => c_net c =? net) cs = true); [|congruence].
+      apply existsb_exists. exists c. split; [exact Hin|apply N.eqb_eq, En]. }
+  split; [|split].
+  - intros c Hin Hn. destruct (H1 c Hin Hn) as (_ & Hp & Hi & _). split; [exact Hp|exact Hi].
+  - intro Hall. destruct Hcase as [(c & Hin & Hn)|Hno].
+    + destruct (H1 c Hin Hn) as (_ & _ & _ & Hb & _). right. apply Hb, (Hall c Hin Hn).
+    + destruct (H2 Hno) as [Hd|He]; [left; exact Hd|right; rewrite He; reflexivity].
+  - intro Hall. destruct Hcase as [(c & Hin & Hn)|Hno].
+    + destruct (H1 c Hin Hn) as (_ & _ & _ & _ & Ha). right. apply Ha, (Hall c Hin Hn).
+    + apply H2, Hno.
+Qed.
+
+(* ---- stale marking: possibly several notifications per destination *)
+
+Lemma restale_op_changes t llgr addr :
+  snd (restale_op t llgr addr)
+  = flat_map (fun nd => snd (restale_dest (restale_flags llgr addr (t_dests t) (t_flags t)) llgr addr (fst nd) (snd nd)))
+             (t_dests t).
+Proof. unfold restale_op. cbv zeta. cbn [snd]. rewrite flat_map_map. reflexivity. Qed.
+
+Lemma net_ok_restale f t llgr addr net :
+  inv1 f t -> invE t -> net_ok t (fst (restale_op t llgr addr)) (snd (restale_op t llgr addr)) net.
+Proof.
+  intros H1 [Hk Hok]. destruct (restale_op_dests t llgr addr) as [Ed _]. cbv zeta in Ed.
+  rewrite restale_op_changes.
+  set (fl' := restale_flags llgr addr (t_dests t) (t_flags t)) in *.
+  assert (Hdest : forall n d, In (n, d) (t_dests t) ->
+            (forall c, In c (snd (restale_dest fl' llgr addr n d)) ->
+                       c_net c = n /\ c_paths c = elig_list (fst (restale_dest fl' llgr addr n d))
+                       /\ c_dest_id c = d_id (fst (restale_dest fl' llgr addr n d)))
+            /\ ((forall c, In c (snd (restale_dest fl' llgr addr n d)) -> c_best_changed c = false) ->
+                head_content (elig_list d) = head_content (elig_list (fst (restale_dest fl' llgr addr n d))))
+            /\ ((forall c, In c (snd (restale_dest fl' llgr addr n d)) -> c_any_changed c = false) ->
+                elig_list d = elig_list (fst (restale_dest fl' llgr addr n d)))).
+  { intros n d Hin. destruct (Hok _ _ Hin) as (_ & Hl & _). apply (restale_dest_sound f t llgr addr n d H1 Hin Hl). }
+  assert (Hmem : forall c, In c (flat_map (fun nd => snd (restale_dest fl' llgr addr (fst nd) (snd nd))) (t_dests t)) ->
+                           c_net c = net ->
+                           exists d, alookup net (t_dests t) = Some d /\ In c (snd (restale_dest fl' llgr addr net d))).
+  { intros c Hc Hn. apply in_flat_map in Hc as ([n d] & Hin & Hc). cbn [fst snd] in Hc.
+    destruct (Hdest n d Hin) as (Hp & _). destruct (Hp c Hc) as (Hcn & _).
+    rewrite Hn in Hcn. subst n. exists d. split; [apply (in_alookup _ _ _ Hk Hin)|exact Hc]. }
+  unfold net_ok, elig_of, id_of. rewrite Ed, alookup_mp.
+  split; [|split].
+  - intros c Hc Hn. destruct (Hmem c Hc Hn) as (d & Hd & Hcd). rewrite Hd.
+    apply alookup_in in Hd. destruct (Hdest net d Hd) as (Hp & _). destruct (Hp c Hcd) as (_ & H2 & H3).
+    split; [exact H2|rewrite H3; reflexivity].
+  - intro Hall. right. destruct (alookup net (t_dests t)) as [d|] eqn:Hd; [|reflexivity].
+    pose proof (alookup_in _ _ _ Hd) as Hin. destruct (Hdest net d Hin) as (Hp & Hb & _). apply Hb.
+    intros c Hc. destruct (Hp c Hc) as (Hcn & _). apply (Hall c); [|exact Hcn].
+    apply in_flat_map. exists (net, d). split; [exact Hin|exact Hc].
+  - intro Hall. right. destruct (alookup net (t_dests t)) as [d|] eqn:Hd; [|reflexivity].
+    pose proof (alookup_in _ _ _ Hd) as Hin. destruct (Hdest net d Hin) as (Hp & _ & Ha). apply Ha.
+    intros c Hc. destruct (Hp c Hc) as (Hcn & _). apply (Hall c); [|exact Hcn].
+    apply in_flat_map. exists (net, d). split; [exact Hin|exact Hc].
+Qed.
+
 (* -------------------------------------------------------------- deferral *)
 
 Lemma net_ok_quiet t t' cs net : net_ok t t' cs net -> net_ok t t' (quiet t cs) net.
 Proof.
   intros H. unfold quiet. destruct (t_deferring t) eqn:Hd; [|exact H].
-  split; [intros c []|intros _; left; exact Hd].
+  split; [intros c []|split; intros _; left; exact Hd].
 Qed.
 
 Lemma in_all_dests t c :
@@ -461,10 +551,10 @@ Proof. reflexivity. Qed.
 Lemma net_ok_end_deferral t net :
   NoDup (map fst (t_dests t)) -> net_ok t (set_deferring t false) (all_dests t) net.
 Proof.
-  intro Hk. split; [|intros _; right; reflexivity].
+  intro Hk. split; [|split; intros _; right; reflexivity].
   intros c Hc Hn. apply in_all_dests in Hc as (n & d & Hin & ->). cbn [c_net] in Hn. subst n.
-  cbn [set_deferring t_dests] in *. rewrite (in_alookup _ _ _ Hk Hin). unfold chg_ok. cbn.
-  repeat split; try reflexivity; discriminate.
+  unfold elig_of, id_of. cbn [set_deferring t_dests c_paths c_dest_id]. rewrite (in_alookup _ _ _ Hk Hin).
+  split; reflexivity.
 Qed.
 
 (* ------------------------------------------------------------- every step *)
@@ -474,17 +564,17 @@ Lemma net_ok_step f t o net :
 Proof.
   intros H1 He Hw. unfold step_t, step_cs.
   destruct o as [s n0 rpid nh a filt nhinv lim|s n0 rpid ctr|k addr ctr|llgr addr|nh r| |]; cbn [step].
-  - pose proof (net_ok_insert t s n0 rpid nh a filt nhinv lim net He) as H.
+  - pose proof (net_ok1_ok _ _ _ _ (net_ok1_insert t s n0 rpid nh a filt nhinv lim net He)) as H.
     destruct (insert t s n0 rpid nh a filt nhinv lim) as [t' [| |c]]; exact H.
-  - pose proof (net_ok_remove t s n0 rpid ctr net He) as H.
+  - pose proof (net_ok1_ok _ _ _ _ (net_ok1_remove t s n0 rpid ctr net He)) as H.
     destruct (remove t s n0 rpid ctr) as [t' [c|]]; cbn [fst snd] in *; [apply net_ok_quiet, H|exact H].
-  - pose proof (net_ok_drop t k addr ctr net He) as H. destruct (drop_op t k addr ctr) as [t' cs].
+  - pose proof (net_ok1_ok _ _ _ _ (net_ok1_drop t k addr ctr net He)) as H. destruct (drop_op t k addr ctr) as [t' cs].
     cbn [fst snd] in *. apply net_ok_quiet, H.
   - pose proof (net_ok_restale f t llgr addr net H1 He) as H. destruct (restale_op t llgr addr) as [t' cs].
     cbn [fst snd] in *. apply net_ok_quiet, H.
-  - pose proof (net_ok_nhv t nh r net He) as H. destruct (nhv_op t nh r) as [t' cs].
+  - pose proof (net_ok1_ok _ _ _ _ (net_ok1_nhv t nh r net He)) as H. destruct (nhv_op t nh r) as [t' cs].
     cbn [fst snd] in *. apply net_ok_quiet, H.
-  - cbn [fst snd]. split; [intros c []|intros _; right; reflexivity].
+  - cbn [fst snd]. split; [intros c []|split; intros _; right; reflexivity].
   - cbn [fst snd]. apply net_ok_end_deferral, He.
 Qed.
 
@@ -533,11 +623,12 @@ Variable proj : list entry -> X.
 Definition gen_apply (v : N -> X) (c : change) : N -> X :=
   if relevant c then upd v (c_net c) (proj (c_paths c)) else v.
 
-(* a skipped notification changes nothing this consumer can see *)
-Hypothesis Hsound : forall c old new,
-    relevant c = false ->
-    (c_best_changed c = false -> head_content old = head_content new) ->
-    (c_any_changed c = false -> old = new) ->
+(* when every notification of one operation for a prefix is skipped, nothing
+   this consumer can see has changed *)
+Hypothesis Hsound : forall (cs : list change) (net : N) old new,
+    (forall c, In c cs -> c_net c = net -> relevant c = false) ->
+    ((forall c, In c cs -> c_net c = net -> c_best_changed c = false) -> head_content old = head_content new) ->
+    ((forall c, In c cs -> c_net c = net -> c_any_changed c = false) -> old = new) ->
     proj old = proj new.
 (* notifications with both flags set are never skipped *)
 Hypothesis Hloc : forall c, c_best_changed c = true -> c_any_changed c = true -> relevant c = true.
@@ -571,9 +662,9 @@ Lemma G_step f t o v :
   G t v -> G (step_t t o) (fold_left gen_apply (step_cs t o) v).
 Proof.
   intros H1 He Hw Hstart HG net. specialize (HG net).
-  destruct (net_ok_step f t o net H1 He Hw) as [Hc Hno].
+  destruct (net_ok_step f t o net H1 He Hw) as (Hc & Hb & Ha).
   assert (HP : forall c, In c (step_cs t o) -> c_net c = net -> c_paths c = elig_of (step_t t o) net).
-  { intros c Hin Hn. destruct (Hc c Hin Hn) as (_ & Hp & _). exact Hp. }
+  { intros c Hin Hn. destruct (Hc c Hin Hn) as (Hp & _). exact Hp. }
   destruct o as [s n0 rpid nh a filt nhinv lim|s n0 rpid ctr|k addr ctr|llgr addr|nh r| |] eqn:Eo.
   6: { (* StartDeferral on an empty family *)
     unfold step_t, step_cs in *. cbn [step fst snd set_deferring t_deferring fold_left] in *.
@@ -584,9 +675,10 @@ Proof.
     rewrite Hf, HG. rewrite elig_of_set_deferring.
     unfold elig_of. destruct (alookup net (t_dests t)) as [d|] eqn:Hd; [|destruct (t_deferring t); reflexivity].
     exfalso. apply alookup_in in Hd.
-    assert (Hrel : relevant {| c_net := net; c_dest_id := d_id d; c_best_changed := true; c_any_changed := true;
-                               c_replaced := None; c_paths := elig_list d |} = false).
-    { apply Hirr; [|reflexivity]. apply in_all_dests. exists net, d. split; [exact Hin0 || exact Hd|reflexivity]. }
+    assert (Hin0 : In {| c_net := net; c_dest_id := d_id d; c_best_changed := true; c_any_changed := true;
+                         c_replaced := None; c_paths := elig_list d |} (all_dests t)).
+    { apply in_all_dests. exists net, d. split; [exact Hd|reflexivity]. }
+    pose proof (Hirr _ Hin0 eq_refl) as Hrel.
     rewrite Hloc in Hrel; [discriminate|reflexivity|reflexivity]. }
   all: rewrite <- Eo in *;
     assert (Hsame : t_deferring (step_t t o) = t_deferring t)
@@ -594,14 +686,9 @@ Proof.
     rewrite Hsame; destruct (t_deferring t) eqn:Hd;
     [ rewrite (quiet_while_deferring t o Hd) by (rewrite Eo; discriminate); cbn [fold_left]; exact HG
     | destruct (fold_net (step_cs t o) v net _ HP) as [Hf|[Hf Hirr]]; [exact Hf|]; rewrite Hf, HG;
-      destruct (existsb (fun c => c_net c =? net) (step_cs t o)) eqn:Ex;
-      [ apply existsb_exists in Ex as (c & Hin & En); apply N.eqb_eq in En;
-        destruct (Hc c Hin En) as (_ & _ & _ & Hb & Ha);
-        apply (Hsound c _ _ (Hirr c Hin En) Hb Ha)
-      | assert (Hnone : forall c, In c (step_cs t o) -> c_net c <> net)
-          by (intros c Hin En; assert (existsb (fun c => c_net c =? net) (step_cs t o) = true);
-              [apply existsb_exists; exists c; split; [exact Hin|apply N.eqb_eq, En]|congruence]);
-        destruct (Hno Hnone) as [Hdd|Heq]; [congruence|rewrite Heq; reflexivity] ] ].
+      apply (Hsound (step_cs t o) net _ _ Hirr);
+      [ intro Hall; destruct (Hb Hall) as [Hx|Hx]; [discriminate Hx|exact Hx]
+      | intro Hall; destruct (Ha Hall) as [Hx|Hx]; [discriminate Hx|exact Hx] ] ].
 Qed.
 
 Lemma consume_fst {S} (app : S -> change -> S) t s ops : fst (consume app t s ops) = run t ops.
@@ -663,27 +750,30 @@ Lemma C06_change_carries_current_list :
                             end.
 Proof.
   intros shard ops o c Hc t Hin. destruct (reach_inv shard ops o Hc) as (f & H1 & He & Hw). fold t in H1, He.
-  destruct (net_ok_step f t o (c_net c) H1 He Hw) as [H _].
-  destruct (H c Hin eq_refl) as (_ & Hp & Hi & _). split; [exact Hp|exact Hi].
+  destruct (net_ok_step f t o (c_net c) H1 He Hw) as (H & _ & _). apply (H c Hin eq_refl).
 Qed.
 
-(* the two flags are sound for skipping *)
+(* the two flags are sound for skipping: if every notification an operation
+   emits for a prefix says "best unchanged" (in particular if there is none), the
+   content of the prefix's best path did not change; if every one says "nothing
+   changed", the eligible list did not change *)
 Lemma C06_skip_flags_sound :
-  forall shard ops o c,
+  forall shard ops o net,
     consistent (ops ++ [o]) ->
     let t := run (empty_table shard) ops in
-    In c (step_cs t o) ->
-    (c_best_changed c = false ->
-     head_content (elig_of t (c_net c)) = head_content (elig_of (step_t t o) (c_net c)))
-    /\ (c_any_changed c = false -> elig_of t (c_net c) = elig_of (step_t t o) (c_net c)).
+    t_deferring t = false ->
+    ((forall c, In c (step_cs t o) -> c_net c = net -> c_best_changed c = false) ->
+     head_content (elig_of t net) = head_content (elig_of (step_t t o) net))
+    /\ ((forall c, In c (step_cs t o) -> c_net c = net -> c_any_changed c = false) ->
+        elig_of t net = elig_of (step_t t o) net).
 Proof.
-  intros shard ops o c Hc t Hin. destruct (reach_inv shard ops o Hc) as (f & H1 & He & Hw). fold t in H1, He.
-  destruct (net_ok_step f t o (c_net c) H1 He Hw) as [H _].
-  destruct (H c Hin eq_refl) as (_ & _ & _ & Hb & Ha). split; assumption.
+  intros shard ops o net Hc t Hd. destruct (reach_inv shard ops o Hc) as (f & H1 & He & Hw). fold t in H1, He.
+  destruct (net_ok_step f t o net H1 He Hw) as (_ & Hb & Ha). split; intro Hall.
+  - destruct (Hb Hall) as [H|H]; [congruence|exact H].
+  - destruct (Ha Hall) as [H|H]; [congruence|exact H].
 Qed.
 
-(* a prefix that gets no notification keeps its eligible list (while the family
-   is deferring nothing is notified at all) *)
+(* a prefix that gets no notification keeps its eligible list *)
 Lemma C06_silent_prefix_unchanged :
   forall shard ops o net,
     consistent (ops ++ [o]) ->
@@ -692,8 +782,8 @@ Lemma C06_silent_prefix_unchanged :
     (forall c, In c (step_cs t o) -> c_net c <> net) ->
     elig_of t net = elig_of (step_t t o) net.
 Proof.
-  intros shard ops o net Hc t Hd Hno. destruct (reach_inv shard ops o Hc) as (f & H1 & He & Hw). fold t in H1, He.
-  destruct (net_ok_step f t o net H1 He Hw) as [_ H]. destruct (H Hno) as [H0|H0]; [congruence|exact H0].
+  intros shard ops o net Hc t Hd Hno. apply (C06_skip_flags_sound shard ops o net Hc Hd).
+  intros c Hin Hn. exfalso. apply (Hno c Hin Hn).
 Qed.
 
 Lemma find_loc_none net ds :
@@ -735,7 +825,7 @@ Proof.
   rewrite locrib_view_elig by (apply invE_run, invE_empty).
   change full_apply with (gen_apply (list entry) (fun _ => true) (fun l => l)).
   apply (consume_correct (list entry) (fun _ => true) (fun l => l)); try assumption.
-  - intros c old new H. discriminate.
+  - intros cs n old new Hirr _ Ha. apply Ha. intros c Hin Hn. discriminate (Hirr c Hin Hn).
   - reflexivity.
 Qed.
 
@@ -752,7 +842,7 @@ Proof.
   rewrite locrib_view_elig by (apply invE_run, invE_empty).
   change best_apply with (gen_apply _ c_best_changed head_content).
   apply (consume_correct _ c_best_changed head_content); try assumption.
-  - intros c old new Hr Hb _. exact (Hb Hr).
+  - intros cs n old new Hirr Hb _. exact (Hb Hirr).
   - intros c Hb _. exact Hb.
 Qed.
 
@@ -769,7 +859,7 @@ Proof.
   rewrite locrib_view_elig by (apply invE_run, invE_empty).
   change (addpath_apply n) with (gen_apply _ c_any_changed (limit n)).
   apply (consume_correct _ c_any_changed (limit n)); try assumption.
-  - intros c old new Hr _ Ha. rewrite (Ha Hr). reflexivity.
+  - intros cs n0 old new Hirr _ Ha. rewrite (Ha Hirr). reflexivity.
   - intros c _ Ha. exact Ha.
 Qed.
 
